@@ -1,0 +1,25 @@
+//go:build verif
+
+package api
+
+// VerifRoute describes one registered endpoint method (build tag `verif`).
+type VerifRoute struct {
+	Method       string
+	Path         string
+	RequiresAuth bool
+}
+
+// VerifRoutes lists what RegisterHandlers registers, from the same endpoint slice.
+func (api *API) VerifRoutes() []VerifRoute {
+	var routes []VerifRoute
+	for _, endpoint := range api.endpoints {
+		for _, method := range endpoint.EndpointMethods() {
+			routes = append(routes, VerifRoute{
+				Method:       method.Method,
+				Path:         api.basePath + endpoint.Path(),
+				RequiresAuth: method.RequiresAuth,
+			})
+		}
+	}
+	return routes
+}
